@@ -42,6 +42,13 @@
 //	    comma, or on the next line — and EVERY character up to the line end is its text: `#`, `##`, `//`, `/*`,
 //	    `*/`, `-`, `@`, `|`, quotes, brackets, commas, colons are ordinary there (inside a multi-line annotation
 //	    `#` never starts a user comment).
+//	V8c Which item a comment belongs to is decided by POSITION, independently per item (each item of a list draws
+//	    its own {no comment, comment}): several items may share a line (the comment at the end of the line belongs
+//	    to the last of them), blank lines may follow any line. Readings taken from the unchanged tree: a comment
+//	    between `[` and the first item belongs to no item and appears nowhere in the AST; when an item is followed
+//	    by a comment before its comma AND one after its comma, the item carries the LATER one; two comments with
+//	    nothing between them are a scanner error (301, not generated); `or` and `allOf` lists take no comments at
+//	    all (loader error 801, not generated) — only enum lists, also the enum of an `or` rule-set, do.
 //	V11a Note texts come from the same pool. In a /* */ annotation the note is verbatim up to `*/` (so `#`, `//`,
 //	    `/*`, line breaks are ordinary; `*/` itself cannot be written); in a `//` annotation everything is
 //	    ordinary except `#`, which starts a user comment: the note is the text before the first `#`, trimmed
@@ -221,7 +228,7 @@ func Run(args []string) {
 		"additionalProperties, precision/decimal, format types; repeated alternatives in shortcuts and or rules (same / other spelling); "+
 		"notes and enum item comments drawn from a pool with every scanner-relevant character (# ## // /* */ - @ | quotes brackets , : non-ASCII), "+
 		"one in three opening / closing with a non-ASCII white-space character (U+00A0, U+3000, U+2000-200A, U+0085, U+FEFF, VT, FF …) or punctuation; the same inside strings and keys; "+
-		"item comments after / before the comma / on their own line, also in or rule-sets; random layout, // and /* */ annotations, LF/CRLF) printed as JSight; "+
+		"item comments after / before the comma / on their own line, also in or rule-sets, drawn per item (stats enum_list_*), a comment before the first item, two comments after one item, several items per line, blank lines; random layout, // and /* */ annotations, LF/CRLF) printed as JSight; "+
 		"expected AST computed from the IR; nontrivial = the root has children, rules or a note. "+
 		"History cases (hist.go H1-H6): programs over several schema objects with generated texts - 1-2 parents (generated root / root referencing the type objects), "+
 		"1-3 type objects @u1.. (own type table none / filled before / filled after being handed to a parent; nested in each other; in one or several parents), the fixed type objects shared or per receiver - "+
@@ -256,12 +263,12 @@ func Run(args []string) {
 		wg.Wait()
 		for j, res := range results {
 			i := start + j
-			rep.Case(res.key, res.nontriv)
+			rep.Case(lineSafe(res.key), res.nontriv)
 			for k, v := range res.stats {
 				rep.Stats[k] += v
 			}
 			if res.timeout {
-				rep.AddDiff(vh.Diff{Component: "C16-ast", Input: res.c.String(), Impl: "TIMEOUT", Model: "GetAST returns"})
+				rep.AddDiff(vh.Diff{Component: "C16-ast", Input: lineSafe(res.c.String()), Impl: "TIMEOUT", Model: "GetAST returns"})
 				stop = true
 				break
 			}
@@ -274,7 +281,7 @@ func Run(args []string) {
 				if len(model) > 1500 {
 					model = model[:1500] + "…"
 				}
-				rep.AddDiff(vh.Diff{Component: "C16-ast", Input: res.c.String(), Impl: impl, Model: model, Note: fmt.Sprintf("case %d: %s", i, res.diff)})
+				rep.AddDiff(vh.Diff{Component: "C16-ast", Input: lineSafe(res.c.String()), Impl: lineSafe(impl), Model: lineSafe(model), Note: lineSafe(fmt.Sprintf("case %d: %s", i, res.diff))})
 			} else {
 				rep.Stat("ast_equal")
 			}
@@ -312,13 +319,13 @@ func runHistories(rep *vh.Report, stop bool) {
 		close(next)
 		wg.Wait()
 		for j, res := range results {
-			rep.Case(res.key, res.nontriv)
+			rep.Case(lineSafe(res.key), res.nontriv)
 			rep.Stat("hist_cases")
 			for k, v := range res.h.stats {
 				rep.Stats[k] += v
 			}
 			if res.timeout {
-				rep.AddDiff(vh.Diff{Component: "C16-ast-history", Input: res.input, Impl: "TIMEOUT", Model: "every call returns"})
+				rep.AddDiff(vh.Diff{Component: "C16-ast-history", Input: lineSafe(res.input), Impl: "TIMEOUT", Model: "every call returns"})
 				stop = true
 				break
 			}
@@ -331,7 +338,7 @@ func runHistories(rep *vh.Report, stop bool) {
 				if len(model) > 1500 {
 					model = model[:1500] + "…"
 				}
-				rep.AddDiff(vh.Diff{Component: "C16-ast-history", Input: res.input, Impl: impl, Model: model, Note: fmt.Sprintf("history case %d: %s", start+j, res.diff)})
+				rep.AddDiff(vh.Diff{Component: "C16-ast-history", Input: lineSafe(res.input), Impl: lineSafe(impl), Model: lineSafe(model), Note: lineSafe(fmt.Sprintf("history case %d: %s", start+j, res.diff))})
 			} else {
 				rep.Stat("hist_all_asts_equal")
 			}
